@@ -133,7 +133,7 @@ def judge(ctx: Ctx, tag: str, method: str, cv, axis, type_measure, subpix, d_b, 
                                                          f"{exp} ({method}, {type_measure}, subpix {subpix})")
             co = float(coeff[r, c])
             ctol = 1e-6 + 1e-5 * max(1.0, abs(y), abs(c1))
-            if abs(co - y) > ctol:
+            if not (abs(co - y) <= ctol):  # a NaN coefficient is wrong too
                 ctx.violation("C06/coefficient-not-fitted-cost", f"{tag} pixel {(r, c)} triple={(c0, c1, c2)} coeff {co} "
                                                                  f"expected {y} ({method}, {type_measure})")
             if s * co > s * c1 + ctol:
